@@ -195,7 +195,7 @@ pub fn run(seed: u64, tier: &str, shard: usize, nshards: usize) -> ShardResult {
     }
     // random long sequences over parameter variants
     let mut rng = Rng::derive(seed, 0xC14 + shard as u64);
-    let total_random = if tier == "miri" { 80 } else if tier == "thorough" { 12_000 } else { 2_400 };
+    let total_random = if tier == "miri" { 32 } else if tier == "thorough" { 12_000 } else { 2_400 };
     for i in 0..total_random / nshards.max(1) {
         let algo = ALGOS[i % ALGOS.len()];
         let variants = AlgoCfg::variants(algo);
@@ -203,7 +203,7 @@ pub fn run(seed: u64, tier: &str, shard: usize, nshards: usize) -> ShardResult {
         let capacity = 2 + rng.usize(20);
         let universe = 4 + rng.below(24);
         let cfg = MemCfg { algo: acfg, capacity, shards: 1, pipe: false, reenter: false, div: 1, universe };
-        let len = if tier == "miri" { 20 + rng.usize(60) } else if tier == "thorough" { 500 + rng.usize(4500) } else { 200 + rng.usize(1300) };
+        let len = if tier == "miri" { 16 + rng.usize(32) } else if tier == "thorough" { 500 + rng.usize(4500) } else { 200 + rng.usize(1300) };
         let m = OpMix {
             universe,
             weights: vec![1, 1, 1, 2, 2, 3, 5],
